@@ -192,7 +192,8 @@ def configure_v1(config: dict[str, Any]) -> dict[str, Any]:
     # grid and forcing
     conf2["grid"] = dict()
     conf2["forcing"] = dict()
-    if "ladim1.gridforce.ROMS" in config["gridforce"]["module"]:
+    # The ROMS module of version 1: ladim.gridforce.ROMS (also written ladim1.gridforce.ROMS)
+    if "gridforce.ROMS" in config["gridforce"]["module"]:
         conf2["grid"]["module"] = "ladim.ROMS"
         conf2["forcing"]["module"] = "ladim.ROMS"
     else:
@@ -223,8 +224,10 @@ def configure_v1(config: dict[str, Any]) -> dict[str, Any]:
 
     if "subgrid" in config["gridforce"]:
         conf2["grid"]["subgrid"] = config["gridforce"]["subgrid"]
-    if "extra_forcing" in config["gridforce"]:
-        conf2["forcing"]["extra_forcing"] = config["gridforce"]["extra_forcing"]
+    # The extra forcing variables are called ibm_forcing in version 1
+    for key in ["ibm_forcing", "extra_forcing"]:
+        if key in config["gridforce"]:
+            conf2["forcing"]["extra_forcing"] = config["gridforce"][key]
 
     # state
     conf2["state"] = dict()
